@@ -12,7 +12,7 @@ use std::collections::HashSet;
 
 const AZS: [f32; 8] = [0.0, 45.0, 90.0, 135.0, 180.0, -135.0, -90.0, -45.0];
 const TILTS: [f32; 3] = [90.0, 45.0, 0.0];
-const OBST: [&str; 11] = ["none", "facing-1m", "facing-5m", "facing-20m", "overhang", "side-fin", "half-cover", "behind", "below", "big-overhang", "facing-1m-five-corners"];
+const OBST: [&str; 12] = ["none", "facing-1m", "facing-5m", "facing-20m", "overhang", "side-fin", "half-cover", "behind", "below", "big-overhang", "facing-1m-five-corners", "facing-1m-sloped-top"];
 const FILLERS: [usize; 5] = [0, 29, 30, 31, 60];
 
 /// shade given in the window wall's local frame: a plane parallel to the wall (kind 0) at local z = d,
@@ -33,6 +33,12 @@ fn obstacle(kind: &str, wallg: &WallGeom) -> Option<Shade> {
         "none" => None,
         "facing-1m" => Some(local_shade("ob", wallg, 0, [-2.0, -1.0, 1.0], 8.0, 6.0)),
         "facing-5m" => Some(local_shade("ob", wallg, 0, [-2.0, -1.0, 5.0], 8.0, 6.0)),
+        "facing-1m-sloped-top" => {
+            // the screen at 1 m with a sloped top: four corners, level base, upright second side, the fourth corner lower
+            let mut s = local_shade("ob", wallg, 0, [-2.0, -1.0, 1.0], 8.0, 6.0);
+            s.geometry.polygon = vec![point![0.0, 0.0], point![8.0, 0.0], point![8.0, 6.0], point![0.0, 2.2]];
+            Some(s)
+        }
         "facing-1m-five-corners" => {
             // the screen at 1 m, its outline written with a corner in the middle of its first side
             let mut s = local_shade("ob", wallg, 0, [-2.0, -1.0, 1.0], 8.0, 6.0);
@@ -397,7 +403,7 @@ pub fn run(ctx: &Ctx) -> i32 {
     ctx.sample(json!({"part": "scene", "zone": zones[t[0]], "azimuth": AZS[t[1]], "tilt": TILTS[t[2]], "setback_idx": t[3], "obstacle": OBST[t[4]], "fillers": FILLERS[t[5]], "positions": t[6]}));
     ctx.finish(
         "model_checking",
-        &format!("full product zones({}) x window-wall azimuth(8) x tilt{{90,45,0}} x setback{{0,0.2}} x obstacle{{none, facing wall at 1/5/20 m (the one at 1 m also with a fifth corner in the middle of its first side), overhang, big overhang, side fin, half cover, behind, below}} x far-away filler occluders{{0,29,30,31,60}} (crossing the BVH leaf size) x positions{{all, window without, wall without}} (every other scene lists the wall outline from its third corner, the window staying where it is); oracle: brute-force f64 ray/polygon casting from the code's own sample points over the statement's occluder set (reveals recomputed), bands: 1 mm from an outline, |n.d|<0.02, sun within 0.02 of the back-face threshold; F in [lo-0.005, hi+0.005], in [0,1], >= 0.97 when nothing can be hit, diffuse share when hidden at every hour, sample points on the window rectangle in the set-back plane; exact monotonicity when each alphabet obstacle (one as a wall) is added; two-window models over all ordered pairs of wall poses (azimuth(4) x tilt(3) x second azimuth{{same,+90}} x tilt(3) x list order x second window with / without position, every other pair with both windows set back 0.25 m, every other one with a user obstruction factor next to the computed one, and the factor in EnergyIndicators.props.windows compared with Model::compute_fshobst); shipped models with and without extra obstacles; non-trivial = some ray can be blocked", zones.len()),
+        &format!("full product zones({}) x window-wall azimuth(8) x tilt{{90,45,0}} x setback{{0,0.2}} x obstacle{{none, facing wall at 1/5/20 m (the one at 1 m also with a fifth corner in the middle of its first side, and with a sloped top), overhang, big overhang, side fin, half cover, behind, below}} x far-away filler occluders{{0,29,30,31,60}} (crossing the BVH leaf size) x positions{{all, window without, wall without}} (every other scene lists the wall outline from its third corner, the window staying where it is); oracle: brute-force f64 ray/polygon casting from the code's own sample points over the statement's occluder set (reveals recomputed), bands: 1 mm from an outline, |n.d|<0.02, sun within 0.02 of the back-face threshold; F in [lo-0.005, hi+0.005], in [0,1], >= 0.97 when nothing can be hit, diffuse share when hidden at every hour, sample points on the window rectangle in the set-back plane; exact monotonicity when each alphabet obstacle (one as a wall) is added; two-window models over all ordered pairs of wall poses (azimuth(4) x tilt(3) x second azimuth{{same,+90}} x tilt(3) x list order x second window with / without position, every other pair with both windows set back 0.25 m, every other one with a user obstruction factor next to the computed one, and the factor in EnergyIndicators.props.windows compared with Model::compute_fshobst); shipped models with and without extra obstacles; non-trivial = some ray can be blocked", zones.len()),
         true,
         json!({"scenes": n}),
     )
